@@ -164,7 +164,7 @@ def spBlock3 (a : String) : List String :=
     a file saved for another program, and missing output are not -/
 def tinyImage (name : String) : BinImage :=
   { magic := [78, 69, 79, 76], driverId := 7, configId := 1000, includes := [], name := name.toUTF8.toList,
-    program := List.replicate 158 0 ++ [1, 0, 1, 0, 0, 0, 0, 0, 0, 0], inheritNames := [], strings := [[120]], varNames := [],
+    program := sampleProgram 0 1 0 1, inheritNames := [], strings := [[120]], varNames := [],
     funNames := [[102]], lineInfo := [4, 0, 2, 0], patches := [] }
 def tinyHex (name : String) : String := hexOfBytes (encodeFile (tinyImage name))
 def bd : List String := ["bindump c17/w/t/a"]
@@ -178,7 +178,9 @@ def bd : List String := ["bindump c17/w/t/a"]
 #guard has (judge bd []) "bindump-without-output"
 #guard has (judge bd ["binsum c17/w/t/a size=1"]) "bindump-unexpected"
 -- the model's reader states what the file holds
-#guard (binSummary "x" (encodeFile (tinyImage "x.c"))).startsWith "binsum x size=213 drv=7 cfg=1000 name=782e63 total=168 inh=- str=1:"
+-- (45 bytes of framing around the program block for this image, whatever the size of program_t)
+#guard (binSummary "x" (encodeFile (tinyImage "x.c"))).startsWith
+  s!"binsum x size={45 + Gen.C17.sizeofProgram} drv=7 cfg=1000 name=782e63 total={Gen.C17.sizeofProgram} inh=- str=1:"
 #guard binSummary "x" ((encodeFile (tinyImage "x.c")).take 100) == "binsum x undecodable"
 
 /-! an include found through the search path is shadowed by a new file next to the source -/
